@@ -18,11 +18,12 @@ RULE = ("cases = every graph id 0..2^(n(n-1)/2)-1 for n=2..6 (decode, encode, re
         "matrix) x every vertex (complement in place and as copy, involution, simplicity, orbit label, library class "
         "id), every class id (id -> grouping -> id) and every grouping index of every combinatorics table; exhaustive; "
         "non-trivial = graph with at least one edge / any id; distinct = (n, graph id) resp. (n, class id) resp. "
-        "(table, index)")
+        "(table, index); plus random operation sequences on one Graph object mirrored on a bitmask model (reference-model monitor)")
 
 
 def plan(tier, seed):
     t = [("classes", n) for n in range(2, 7)] + [("pairs",)]
+    t += [("walks", 400 if tier == "quick" else 6000, seed * 100 + i) for i in range(16)]
     for n in (2, 3, 4, 5):
         t.append(("graphs", n, 0, 1 << (n * (n - 1) // 2)))
     for ch in wp.chunks(list(range(1 << 15)), 32):
@@ -104,6 +105,80 @@ def work_graphs(task, p):
             p.sample({"n": n, "graph id": code, "adjacency rows": want, "complemented at 0": lcorbit.complement(want, 0, n)})
 
 
+def work_walks(task, p):
+    """Reference-model monitor: a random sequence of operations on ONE Graph object, mirrored on an
+    independent adjacency-bitmask model; after every operation the object's adjacency matrix and its
+    compress() id must agree with the model, and decompress(compress()) must equal the object."""
+    import random
+    from htstabilizer.graph import Graph
+    _, cnt, seed = task
+    rnd = random.Random(seed)
+    for w in range(cnt):
+        n = rnd.randint(2, 6)
+        code = rnd.randrange(1 << (n * (n - 1) // 2))
+        g = Graph.decompress(n, code)
+        rows = lcorbit.adj_rows(code, n)
+        trace = ["decompress(%d,%d)" % (n, code)]
+        for step in range(rnd.randint(3, 14)):
+            op = rnd.choice(["compress", "lc", "lc", "add", "remove", "swap", "copy", "clear", "remove_all", "edges", "count"])
+            a, b = rnd.randrange(n), rnd.randrange(n)
+            try:
+                if op == "lc":
+                    g.local_complementation(a)
+                    rows = lcorbit.complement(rows, a, n)
+                elif op == "add":
+                    g.add_edge(a, b)
+                    if a != b:
+                        rows[a] |= 1 << b
+                        rows[b] |= 1 << a
+                elif op == "remove":
+                    g.remove_edge(a, b)
+                    if a != b:
+                        rows[a] &= ~(1 << b)
+                        rows[b] &= ~(1 << a)
+                elif op == "swap":
+                    g.swap(a, b)
+                    if a != b:
+                        perm = list(range(n))
+                        perm[a], perm[b] = b, a
+                        rows = [sum(((rows[perm[i]] >> perm[j]) & 1) << j for j in range(n)) for i in range(n)]
+                elif op == "copy":
+                    g = g.copy()
+                elif op == "clear":
+                    if rnd.random() < 0.3:
+                        g.clear()
+                        rows = [0] * n
+                elif op == "remove_all":
+                    g.remove_all_edges_to(a)
+                    rows = [r & ~(1 << a) for r in rows]
+                    rows[a] = 0
+                elif op == "edges":
+                    e = g.get_edges()
+                    want = [(i, j) for i in range(n) for j in range(i + 1, n) if (rows[i] >> j) & 1]
+                    if [tuple(int(v) for v in x) for x in e] != want:
+                        raise AssertionError("get_edges() = %s, model %s" % (e, want))
+                elif op == "count":
+                    if int(g.edge_count()) != sum(bin(r).count("1") for r in rows) // 2:
+                        raise AssertionError("edge_count() = %s" % g.edge_count())
+                trace.append("%s(%d,%d)" % (op, a, b))
+                p.evals += 1
+                got_rows, A = rows_of(g, n)
+                c = g.compress()
+                back = Graph.decompress(n, c)
+                if got_rows != rows or not simple(A, n):
+                    raise AssertionError("adjacency rows %s, model %s" % (got_rows, rows))
+                if c != lcorbit.code_of(rows, n):
+                    raise AssertionError("compress() = %d, model %d" % (c, lcorbit.code_of(rows, n)))
+                if not (back == g):
+                    raise AssertionError("decompress(compress()) != object")
+            except Exception as e:      # noqa: BLE001
+                p.violate("graph-object-walk %s" % op, "after %s: %s: %s" % (" ".join(trace[-8:]), type(e).__name__, e), {"kind": "walk", "seed": seed, "count": cnt})
+                break
+        p.nontrivial(("w", seed, w))
+    p.counters["object walks"] += cnt
+    p.sample({"walk": " ".join(trace[:10])})
+
+
 def work_classes(task, p):
     from htstabilizer import lc_classes
     n = task[1]
@@ -176,6 +251,8 @@ def work(task):
         work_graphs(task, p)
     elif task[0] == "classes":
         work_classes(task, p)
+    elif task[0] == "walks":
+        work_walks(task, p)
     else:
         work_pairs(p)
     return p
@@ -189,6 +266,8 @@ def replay(cj):
     p = Partial()
     if cj["kind"] == "graph":
         work_graphs(("graphs", cj["n"], cj["code"], cj["code"] + 1), p)
+    elif cj["kind"] == "walk":
+        work_walks(("walks", cj["count"], cj["seed"]), p)
     elif cj["kind"] == "class":
         work_classes(("classes", cj["n"]), p)
     else:
